@@ -50,16 +50,23 @@ def main():
             return 1 if mism else 0
         # full: one target, 2 patchers (the second may share the first one's replacement object), every style/kind;
         # two: a second target (patches of different targets end in any order), alphabet with/start x default/function/callobj/value;
+        # descr: classmethod(...) / staticmethod(...) objects (and function / default) replacing method, classmethod and staticmethod targets;
         # reuse: one patcher activated again and again, the holder re-created in between
-        runs = [("full", {"DEPTH": "4", "PATCHES": "2", "NEST": "2"}),
+        # quick: the full alphabet with patch("mod.attr"), patch.object with the smaller alphabet (objapi), both in descr / reuse
+        runs = [("full", {"DEPTH": "4", "PATCHES": "2", "NEST": "2"} if tier == "thorough" else {"DEPTH": "4", "PATCHES": "2", "NEST": "2", "API": "str"}),
+                ("objapi", {"DEPTH": "4", "PATCHES": "2", "NEST": "2", "API": "obj", "PRESET": "mid3"}),
+                ("descr", {"DEPTH": "4", "PATCHES": "2", "NEST": "2", "PRESET": "descr"}),
                 ("two", {"TWO": "1", "DEPTH": "4", "PATCHES": "2", "NEST": "2", "PRESET": "mid", "API": "str"}),
                 ("reuse", {"REUSE": "1", "DEPTH": "6", "PATCHES": "1", "NEST": "1"})]
         if tier == "thorough":
             runs.append(("reuse2", {"REUSE": "1", "DEPTH": "5", "PATCHES": "2", "NEST": "2", "PRESET": "small", "API": "str"}))
             runs.append(("deep", {"DEPTH": "6", "PATCHES": "3", "NEST": "3", "PRESET": "small", "API": "str"}))
         cases, states, transitions, ok, alarms, tails = [], 0, 0, True, [], []
-        for name, env in runs:
-            hs, res = sat.tlc_histories("MockPatch", "MockPatch.cfg", sc, env=env)
+        from concurrent.futures import ThreadPoolExecutor
+        with ThreadPoolExecutor(max_workers=len(runs)) as ex:       # the TLC runs are independent: run them side by side
+            results = list(ex.map(lambda r: sat.tlc_histories("MockPatch", "MockPatch.cfg", sc, env=r[1],
+                                                              workers=max(2, common.NCPU // 2)), runs))
+        for (name, env), (hs, res) in zip(runs, results):
             al = sat.model_alarm(res)
             if al:
                 alarms.append("%s (%s)" % (al, name))
@@ -84,7 +91,8 @@ def main():
         if alarms and not verdict.violations:
             raise MachineryError("; ".join(alarms) + " on MockPatch.tla but the real patcher follows every prescribed history: the model is wrong\n" + "\n".join(tails))
         steps = sum(len(c["h"]) for c in cases)
-        calls = sum(len(r["convs"]) for c in cases for o in c["h"] for r in o["res"])
+        calls = sum(len(r["convs"]) * len(r["paths"]) for c in cases for o in c["h"] for r in o["res"])
+        gathers = sum(len(r["paths"]) for c in cases for o in c["h"] for r in o["res"] if "gather" in r["convs"])
         nested = sum(1 for c in cases if any(o["op"] == "enter" and o["k"] >= 2 and i > 0 and c["h"][i - 1]["op"] == "enter" for i, o in enumerate(c["h"])))
         shared = sum(1 for c in cases if any(o["op"] == "enter" and o["share"] for o in c["h"]))
         reentered = sum(1 for c in cases if any(o["op"] == "reenter" for o in c["h"]))
@@ -93,7 +101,7 @@ def main():
         cov = {
             "states": states, "transitions": transitions, "traces_validated_against_impl": total,
             "samples": cases[:1] + cases[len(cases) // 3: len(cases) // 3 + 1] + cases[-1:],
-            "histories": len(cases), "steps": steps, "calls_per_build": calls, "builds": list(builds),
+            "histories": len(cases), "steps": steps, "calls_per_build": calls, "gathered_fan_outs_per_build": gathers, "builds": list(builds),
             "tlc_runs": [dict(env, name=name) for name, env in runs],
             "targets": sorted({c["target"] for c in cases}), "apis": sorted({c["api"] for c in cases}),
             "styles": sorted({o["style"] for c in cases for o in c["h"] if o["op"] == "enter"}),
@@ -104,9 +112,10 @@ def main():
             "histories_with_exception_exit": exc_exit, "histories_sharing_one_replacement_object": shared,
             "histories_reactivating_a_patcher": reentered, "of_those_with_holder_recreated": reheld,
             "histories_per_run": {name: sum(1 for c in cases if c["run"] == name) for name, _ in runs},
-            "rule": "every history of enter(4 styles x 6 replacement kinds, or the previous patcher's replacement object again)/leave normally/leave by "
+            "rule": "every history of enter(4 styles x 6 replacement kinds (+ classmethod/staticmethod objects on class targets), or the previous patcher's replacement object again)/leave normally/leave by "
                     "exception/stop/stopall over 5 target kinds x 2 ways of naming the target; with a second target (any stop order across targets); with "
-                    "re-activation of one patcher and re-creation of the holder; each step followed by one call through every convention on every target; "
+                    "re-activation of one patcher and re-creation of the holder; each step followed by one call through every convention (sync, .asynq().value(), yield, .asyncio() awaited alone, three .asyncio() "
+                    "coroutines created first and gathered) on every target through every access path (class and instance for classmethod/staticmethod targets and replacements); "
                     "non-trivial = a second patch is entered while the first is active (nested)",
             "exhaustive": True,
         }
@@ -124,7 +133,10 @@ def main():
                                            "the method through an instance; the plain attribute is only read, or called synchronously when its replacement is callable",
                                            "the identity of a callable replacement in the slot is not prescribed (it may be wrapped); only 'not the original', and identity for "
                                            "non-callable values and for the restored original",
-                                           "a plain function replacing a method receives the instance (Python binding, as with unittest.mock.patch); nothing else is bound",
+                                           "binding is Python's: a plain function in a class receives the instance it is reached through (nothing through the class), a classmethod "
+                                           "object the class, a staticmethod object / mock / callable object / bound method nothing; classmethod/staticmethod replacement objects "
+                                           "are given to class targets only (a module attribute is not a descriptor slot)",
+                                           ".asyncio() coroutines are awaited with run_until_complete on one event loop per replay process (not a fresh asyncio.run loop per call)",
                                            "unittest.mock internals, TLC and the replay harness are trusted"], tier_=tier)
         return rc
 
